@@ -116,7 +116,16 @@ func c01Judge(c *fw.Ctx, sc relayScenario, res *relayResult, rec *consumerRec, p
 	var live []recvItem
 	if rec.JoinK >= 0 {
 		seenLive := false
+		seenPro := map[int]bool{}
 		for n, it := range rec.Items {
+			if it.Idx < rec.JoinK && pub[it.Idx].IsMedia() {
+				// what was published before admission reaches a joiner through the GOP cache only: once
+				if seenPro[it.Idx] {
+					bad("duplicate", "published message %d (before admission) delivered twice to the joiner", it.Idx)
+					return
+				}
+				seenPro[it.Idx] = true
+			}
 			if it.Idx >= rec.JoinK {
 				seenLive = true
 				live = append(live, it)
